@@ -48,7 +48,7 @@ Fixpoint ty_size (t : sty) : N :=
 Fixpoint uclone (t : sty) (v : list word) (h : store) {struct t} : store :=
   match t with
   | TyNum _ => h
-  | TyBoxed _ | TyAlias _ => match v with [] => h | w :: _ => fst (hp_retain h w) end
+  | TyBoxed _ | TyAlias _ => match v with [] => h | w :: _ => fst (hp_retain VE h w) end
   | TySum _ vs =>
       match v with
       | [] => h
@@ -93,21 +93,21 @@ Fixpoint urelease (fuel : nat) (tt : list sty) (t : sty) (v : list word) (h : st
           match v with
           | [] => h
           | w :: _ =>
-              let h1 := match sm_get h (key_of_raw w) with
+              let h1 := match sm_get h (h_dec VE w) with
                         | Some ob => if orc ob <=? 1 then urelease f tt inner (odata ob) h else h
                         | None => h
                         end in
-              fst (hp_release h1 w)
+              fst (hp_release VE h1 w)
           end
       | TyAlias name =>
           match v with
           | [] => h
           | w :: _ =>
-              let h1 := match sm_get h (key_of_raw w), find_sum tt name with
+              let h1 := match sm_get h (h_dec VE w), find_sum tt name with
                         | Some ob, Some inner => if orc ob <=? 1 then urelease f tt inner (odata ob) h else h
                         | _, _ => h
                         end in
-              fst (hp_release h1 w)
+              fst (hp_release VE h1 w)
           end
       | TySum _ vs =>
           match v with
@@ -167,14 +167,12 @@ Definition ty_list : sty := TySum 1 [None; Some (TyTuple [TyNum 1; TyAlias 1])].
    and the next load of the tail faults on WASM only *)
 Lemma usersum_differs :
   let value := fun raw => [1; 4607182418800017408; raw] in
-  let (h0, r0) := hp_alloc sm_new [0] in
-  match r0 with
-  | IHandle raw =>
-      let v1 := fst (vm_usersum_clone [ty_list] (mkVm h0 sm_new (st_init 0)) (value raw) 3 0) in
-      let hv := fst (hp_release (v_heap v1) raw) in
-      let w1 := fst (wasm_usersum_clone (mkWa h0 [] (st_init 0) 0 0) (value raw) 3 0) in
-      let hw := fst (hp_release (w_heap w1) raw) in
-      hp_load hv raw 1 = IWords [0] /\ hp_load hw raw 1 = IFault FInvalidHandle
-  | _ => False
-  end.
+  let (h0, k0) := st_alloc sm_new [0] in
+  let rv := h_enc VE k0 in        (* the VM's handle for the box *)
+  let rw := h_enc WE k0 in        (* the WASM host's handle for the same box *)
+  let v1 := fst (vm_usersum_clone [ty_list] (mkVm h0 sm_new (st_init 0)) (value rv) 3 0) in
+  let hv := fst (hp_release VE (v_heap v1) rv) in
+  let w1 := fst (wasm_usersum_clone (mkWa h0 [] (st_init 0) 0 0) (value rw) 3 0) in
+  let hw := fst (hp_release WE (w_heap w1) rw) in
+  hp_load VE hv rv 1 = IWords [0] /\ hp_load WE hw rw 1 = IFault FInvalidHandle.
 Proof. vm_compute. split; reflexivity. Qed.
